@@ -132,6 +132,16 @@ def random_composition(rng, n):
     return tuple(edges[i + 1] - edges[i] for i in range(len(edges) - 1))
 
 
+def with_empty_blocks(rng, sizes, p=0.15):
+    """with probability p, the same row chunking with one or two zero-row blocks in it (what filtering or concatenating Dask arrays
+    leaves behind): a legal chunking that holds the same rows"""
+    sizes = list(sizes)
+    if rng.random() < p:
+        for _ in range(int(rng.integers(1, 3))):
+            sizes.insert(int(rng.integers(0, len(sizes) + 1)), 0)
+    return tuple(sizes)
+
+
 def split(x, sizes):
     out, i = [], 0
     for s in sizes:
